@@ -86,6 +86,11 @@ func (s *zzStatus10) Update(ctx context.Context, obj client.Object, opts ...clie
 	return s.w.step("status-update", "", obj.(*v1beta1.PodENI))
 }
 
+// a merge patch carries no resourceVersion: it cannot be rejected when the record changed meanwhile
+func (s *zzStatus10) Patch(ctx context.Context, obj client.Object, patch client.Patch, opts ...client.SubResourcePatchOption) error {
+	return s.w.step("status-patch", "", obj.(*v1beta1.PodENI))
+}
+
 func (w *zzWorld10) DetachNetworkInterface(ctx context.Context, eniID, instanceID, trunkENIID string) error {
 	return w.step("detach", eniID, nil)
 }
@@ -176,6 +181,9 @@ func ZZ_C10_podeni_reconcile() {
 	zz.Assert(zz.Implies(failed, err != nil), "a failing cloud / API call is reported as an error (the request is retried)")
 	// every status write follows the documented phase graph
 	for _, o := range w.ops {
+		if o.kind == "status-patch" {
+			zz.Assert(o.rec.Status.Phase == old, "a phase change is written with a conflict-checked update, never with an unconditional patch (the other controller may have moved the record meanwhile)")
+		}
 		if o.kind == "status-update" && o.rec.Status.Phase != old {
 			nw := o.rec.Status.Phase
 			ok := ((old == v1beta1.ENIPhaseInitial || old == v1beta1.ENIPhaseBinding) && nw == v1beta1.ENIPhaseBind) || (old == v1beta1.ENIPhaseDetaching && nw == v1beta1.ENIPhaseUnbind)
